@@ -513,7 +513,7 @@ def prior_states(tier):
                 yield {'A': dm.tolist(), 'layout': lay, 'zeros': 'z1', 'obs_md': 'text', 'samp_md': 'text', 'prior': pr}
 
 
-def sort_order_cases(tier):
+def sort_order_cases(tier, seed=0):
     q = tier == 'quick'
     shapes = [(2, 4), (4, 2), (3, 3)] + ([] if q else [(4, 4), (1, 4), (4, 1)])
     for st in base_states(tier, shapes):
@@ -527,7 +527,7 @@ def sort_order_cases(tier):
             yield dict(st, axis=axis, form='tuple' if st['layout'] == 'csc' else 'list')
     # beyond 4: seeded random permutations of longer axes
     import random
-    rng = random.Random('C06-%s' % tier)
+    rng = random.Random('C06-%s-%s' % (tier, seed))
     for (m, n) in ((2, 6), (7, 3)) if q else ((2, 6), (7, 3), (8, 8), (5, 9)):
         for st in base_states(tier, [(m, n)], md=False):
             for axis in AXES:
@@ -618,9 +618,9 @@ def run(rep):
               '(none, text+taxonomy, numeric+slash) x ID alphabets; U(2) matrices over {0,1,2}; states after a prior '
               'operation (sort_order, transpose, in-place filter, subsample, update_ids, transform, concat, merge, '
               'add_metadata)')
-        rt.run_scope(rep, 'sort_order', 'every permutation of every axis of length <= 4 (seeded random permutations '
+        rt.run_scope(rep, 'sort_order', 'every permutation of every axis of length <= 4 (random permutations, VERIF_SEED, '
                      'of axes of length 6..9), order given as list/array/tuple, inverse law; ' + st,
-                     sort_order_cases(t), run_sort_order_case, chunk=8, exhaustive=True)
+                     sort_order_cases(t, rep.seed), run_sort_order_case, chunk=8, exhaustive=True)
         rt.run_scope(rep, 'sort_order-reject', 'orders with an unknown or a duplicated ID on 2x3 / 3x1 states',
                      sort_order_reject_cases(t), run_sort_order_reject_case, exhaustive=True)
         rt.run_scope(rep, 'sort', 'default natural sort, reverse and by-length user sort functions x axis; IDs whose '
